@@ -79,7 +79,7 @@ func genC18(g *Gen, tier string, w *bufio.Writer) {
 	per := 200
 	maxLen := 16
 	if tier == "thorough" {
-		per = 6000
+		per = 25000
 		maxLen = 50
 	}
 	for i := 0; i < per; i++ {
